@@ -74,7 +74,7 @@ HasIssue(S, g, rd) == \E u, v \in S : u < v /\ (~\E w \in S : u < w /\ w < v) /\
 \* one public call as a record (as Frames!Expect)
 \* ---------------------------------------------------------------------------------------------
 GapExpect(c) ==
-    CASE c.op = "gap"   -> [kind |-> "oneof", vs |-> <<IF c.x.t = <<>> THEN c.x ELSE GapLaw(c.x.t, c.today, c.recent)>>]
+    CASE c.op = "gap"   -> [kind |-> "oneof", vs |-> <<Val(IF c.x.t = <<>> THEN c.x ELSE GapLaw(c.x.t, c.today, c.recent))>>]
       [] c.op = "deal"  -> [kind |-> "oneof", vs |-> <<DealLaw(c.x, c.scores, c.level, c.deal)>>]
       [] c.op = "degap" -> [kind |-> "oneof", vs |-> SetToSeq(DegapOutcomes(c.x, c.today, c.g, c.deal, c.recent))]
 GapOps == {"gap", "deal", "degap"}
